@@ -14,6 +14,7 @@ from __future__ import annotations
 
 import itertools
 import math
+import re
 from fractions import Fraction
 
 from vf import refsem
@@ -58,6 +59,15 @@ FPOW_X = (3.0, 0.75, -0.75, -3.0)
 FPOW_Y = (2.0, -0.5)
 FPOW_INNER = (2, 3, -2, 4, 0.5)
 FPOW_OUTER = (0.5, 1.5, -0.5, 2.5, 2, -1)
+# "names": variable names beyond plain ASCII identifiers.  Not NFKC-stable: micro sign, ligature fi,
+# fullwidth x, superscript two, Kelvin sign, long s; NFKC-stable non-ASCII: Greek mu, composed and
+# decomposed e-acute, a CJK character; odd but legal ASCII: underscore, digit suffix, a Python
+# keyword, a name with a dot and one with a space.  CONFUSABLE pairs are two DIFFERENT symbols that
+# some normalisation would identify.
+NAMES = ("x", "_", "x_1", "lambda", "a.b", "a b", "\u00b5", "\ufb01", "\uff58", "x\u00b2",
+         "\u212a", "\u017ft", "\u03bc", "\u00e9", "e\u0301", "\u53d8")
+CONFUSABLE = (("\u00b5", "\u03bc"), ("\ufb01", "fi"), ("\uff58", "x"), ("x\u00b2", "x2"),
+              ("\u212a", "K"), ("\u00e9", "e\u0301"), ("\u017ft", "st"), ("X", "x"))
 MAX_ARITY = 3                                        # "arity" family: table names x 0..3 arguments
 # constants whose CPython hashes collide (hash(-1) == hash(-2), hash(0) == hash(2**61-1)): two
 # sibling nodes differing only in such a pair have equal hashes without being equal; and constants
@@ -239,10 +249,12 @@ def points_for(spec, tier, grid="std"):
     return pts
 
 
-def dvars_for(spec):
+def dvars_for(spec, grid="std"):
     """Differentiation variables: every value leaf of the input, an absent name and an absent
-    subscript of a present aggregate."""
+    subscript of a present aggregate (grid 'absent:<name>': that absent name as well)."""
     out = list(value_leaves(spec))
+    if grid.startswith("absent:") and V(grid[7:]) not in out:
+        out.append(V(grid[7:]))
     if Z not in out:
         out.append(Z)
     if A0 in out and A1 not in out:
@@ -382,7 +394,7 @@ def examine(spec, tier, grid="std", r=None, first_only=True):
         expr = build(spec)
     except Exception:  # noqa: BLE001
         return []
-    dvars = dvars_for(spec)
+    dvars = dvars_for(spec, grid)
     user = USER_FUNCS if grid == "user" else None
     active, anyl, cnames = required_levels(spec, dvars, user)
     fails = []
@@ -609,7 +621,9 @@ class C10(Check):
             "non-integer ones x 5 parents in floats at x = +-3, +-0.75 (fpow), calls of two "
             "caller-supplied functions (2 / 3 arguments, index-dependent derivative table passed "
             "as func_mapper / func_map) over every argument tuple of variables, literals and "
-            "composites x 4 parents (funcmap), and all call "
+            "composites x 4 parents (funcmap), 5 templates over 16 variable names beyond plain "
+            "ASCII identifiers (not NFKC-stable, non-ASCII, keyword, dotted, spaced) and over 8 "
+            "confusable name pairs in both orders incl. the absent partner (names), and all call "
             "histories up to length 2/3 over {differentiate(), one re-used mapper instance per "
             "variable} x {x, y} x 5 CSE expressions. Each expression x every value leaf, an "
             "absent name and an absent subscript as differentiation variable (object / name / "
@@ -661,6 +675,7 @@ class C10(Check):
             ("tails", self.gen_tails),
             ("fpow", self.gen_fpow),
             ("funcmap", self.gen_funcmap),
+            ("names", self.gen_names),
             ("cse-histories", lambda: self.gen_histories(tier)),
         ]
         if tier == "thorough":
@@ -824,6 +839,29 @@ class C10(Check):
                   Call(V("q"), Call(V("f"), X), Y)):
             yield ("e", e, "user")
 
+    def gen_names(self):
+        """Four templates over every name of NAMES (with a plain second variable) and over every
+        CONFUSABLE pair in both orders; as everywhere, each variable is given to differentiate() as
+        a Variable object, as a string, and to the mapper directly, and the partner of a
+        confusable pair that does not occur must give 0."""
+        def templates(a, b):
+            return (Sum(Prod(Pow(a, C(2)), b), Prod(C(3), a)), mcall("sin", Prod(a, b)),
+                    Quot(a, Sum(b, C(3))), CSE(Prod(a, b)), Pow(a, C(3)))
+        seen = set()
+
+        def once(item):
+            if item not in seen:
+                seen.add(item)
+                yield item
+        for n in NAMES:
+            for e in templates(V(n), V("t")):
+                yield from once(("e", e))
+        for n1, n2 in CONFUSABLE:
+            for a, b in ((n1, n2), (n2, n1)):
+                for e in templates(V(a), V(b)):
+                    yield from once(("e", e))
+                yield from once(("e", Pow(V(a), C(2)), "absent:" + b))
+
     def gen_arity(self):
         """Every name of the derivative table called with every arity 0..3 other than (and
         including) the one the table knows, arguments over x, y, 2, bare and below five parents:
@@ -920,6 +958,10 @@ class C10(Check):
             if not locs:
                 locs = [(fl[0][0], f"{fl[0][0]}|{show(canon_vars(spec))}", spec)]
             for kk, sig, m in locs:
+                odd = sorted(n for n in (lf[1][1] for lf in value_leaves(m) if lf[0] == "Variable")
+                             if not re.fullmatch(r"[a-z]\d*", n))
+                if odd:
+                    sig += "|names=" + ",".join(ascii(n) for n in odd)
                 d = examine(m, tier, grid)
                 r.fail(kk, sig, f"in {show(spec)}: minimal failing input {show(m)}: "
                                f"{d[0][1] if d else fl[0][1]}",
